@@ -178,43 +178,83 @@ def run(check, an: Analysis):
                    'always succeeds (release is idempotent)')
     # ---- S: Put / Get / cancel / Request.__exit__ -----------------------------------
     for cls_qn, own, other in ((PUT, 'put', 'get'), (GET, 'get', 'put')):
-        init = an.method(cls_qn, '__init__')
-        res = init.node.args.args[1].arg
-        body = [ast.unparse(s) for s in init.node.body]
-        want = ['super().__init__(%s)' % res,
-                '%s.%s_queue.append(self)' % (res, own),
-                'self.callbacks.append(%s._trigger_%s)' % (res, other),
-                '%s._trigger_%s(None)' % (res, own)]
-        check.instance('S', '%s.__init__' % cls_qn.rsplit('.', 1)[-1], body == want,
-                       where_fn(init), 'enqueue, register the inverse trigger as callback, '
-                       'trigger the own side at once: %s' % body)
+        init = an.callee(cls_qn, '__init__')
+        res = init.fn.node.args.args[1].arg
+        ok, n = True, 0
+        for path in an.paths(init):
+            if not path.normal:
+                continue
+            n += 1
+            steps = []
+            for index, event in enumerate(path.events):
+                if event.depth != 0 or event.kind not in ('call', 'enter') or \
+                        not isinstance(event.node, ast.Call):
+                    continue
+                func = rules.value_text(path, index, event.node.func)
+                args = [rules.value_text(path, index, a) for a in event.node.args]
+                if is_call_to(event, '__init__'):
+                    steps.append(('base-init', tuple(args)))
+                elif func == '%s.%s_queue.append' % (res, own):
+                    steps.append(('enqueue', tuple(args)))
+                elif func == 'self.callbacks.append':
+                    steps.append(('callback', tuple(args)))
+                elif is_call_to(event, '_trigger_%s' % own) or \
+                        func == '%s._trigger_%s' % (res, own):
+                    steps.append(('trigger', tuple(args)))
+                elif is_call_to(event, '_trigger_%s' % other):
+                    steps.append(('trigger-other', tuple(args)))
+            ok &= steps == [('base-init', (res,)), ('enqueue', ('self',)),
+                            ('callback', ('%s._trigger_%s' % (res, other),)),
+                            ('trigger', ('None',))]
+        check.instance('S', '%s.__init__' % cls_qn.rsplit('.', 1)[-1], ok and n > 0,
+                       where_fn(init.fn), 'enqueue, register the inverse trigger as callback, '
+                       'trigger the own side at once (%d normal paths)' % n, analysed=n)
         cancel = an.callee(cls_qn, 'cancel')
-        table = {}
+        ok, seen = True, set()
         for path in an.paths(cancel):
-            if path.normal:
-                trig = [e for e in path.events if e.kind == 'test']
-                removed = any(e.kind == 'call' and isinstance(e.node, ast.Call) and
-                              ast.unparse(e.node.func) == 'self.resource.%s_queue.remove'
-                              % own for e in path.events)
-                if trig:
-                    table[trig[0]['value'] == ('not' in ast.unparse(trig[0].node)
-                                                and False or True)] = removed
-        tests = [n for n in ast.walk(cancel.fn.node) if isinstance(n, ast.If)]
-        ok = len(tests) == 1 and equal_bool(tests[0].test, 'not self.triggered') and \
-            any(isinstance(n, ast.Call) and ast.unparse(n.func) ==
-                'self.resource.%s_queue.remove' % own for n in ast.walk(tests[0]))
-        check.instance('S', '%s.cancel' % cls_qn.rsplit('.', 1)[-1], ok, where_fn(cancel.fn),
+            if not path.normal:
+                continue
+            atoms = rules.path_atoms(path)
+            fired = atoms.get(('truth', 'self.triggered'))
+            removed = [rules.value_text(path, i, e.node.args[0])
+                       for i, e in enumerate(path.events)
+                       if e.kind == 'call' and e.depth == 0 and isinstance(e.node, ast.Call)
+                       and e.node.args and rules.value_text(path, i, e.node.func)
+                       == 'self.resource.%s_queue.remove' % own]
+            seen.add(fired)
+            ok &= (removed == ['self']) if fired is False else (
+                not removed and fired is True)
+        check.instance('S', '%s.cancel' % cls_qn.rsplit('.', 1)[-1],
+                       ok and seen == {True, False}, where_fn(cancel.fn),
                        'a request is taken out of its queue iff it was not triggered yet')
-    base_exit = an.method('usim.py.resources.base.BaseRequest', '__exit__')
-    check.instance('S', 'BaseRequest.__exit__', [ast.unparse(s) for s in base_exit.node.body]
-                   == ['self.cancel()'], where_fn(base_exit), 'leaving the block cancels')
-    rexit = an.method(REQUEST, '__exit__')
-    body = rexit.node.body
-    ok = len(body) == 2 and isinstance(body[0], ast.If) and \
-        equal_bool(body[0].test, 'self.triggered') and \
-        [ast.unparse(s) for s in body[0].body] == ['self.resource.release(self)'] and \
-        not body[0].orelse and ast.unparse(body[1]).startswith('super().__exit__(')
-    check.instance('S', 'Request.__exit__', ok, where_fn(rexit),
+    base_exit = an.callee('usim.py.resources.base.BaseRequest', '__exit__')
+    # the base class itself is abstract (cancel raises): judged for the concrete requests
+    bpaths = [p for recv in (PUT, GET) for p in an.paths(Callee(base_exit.fn, recv))
+              if p.normal]
+    ok = bool(bpaths) and all(
+        sum(1 for e in p.events if e.depth == 0 and e.kind in ('call', 'enter')
+            and is_call_to(e, 'cancel')) == 1 for p in bpaths)
+    check.instance('S', 'BaseRequest.__exit__', ok, where_fn(base_exit.fn),
+                   'leaving the block cancels (%d normal paths)' % len(bpaths))
+    rexit = an.callee(REQUEST, '__exit__')
+    ok, seen = True, set()
+    for path in an.paths(rexit):
+        if not path.normal:
+            continue
+        atoms = rules.path_atoms(path)
+        granted = atoms.get(('truth', 'self.triggered'))
+        released = [i for i, e in enumerate(path.events) if e.depth == 0
+                    and e.kind in ('call', 'enter') and isinstance(e.node, ast.Call)
+                    and (is_call_to(e, 'release') or rules.value_text(
+                        path, i, e.node.func) == 'self.resource.release')
+                    and [rules.value_text(path, i, a) for a in e.node.args] == ['self']]
+        chained = [i for i, e in enumerate(path.events) if e.depth == 0
+                   and e.kind in ('call', 'enter') and is_call_to(e, '__exit__')]
+        seen.add(granted)
+        ok &= len(chained) == 1 and (
+            (granted is True and len(released) == 1 and released[0] < chained[0]) or
+            (granted is False and not released))
+    check.instance('S', 'Request.__exit__', ok and seen == {True, False}, where_fn(rexit.fn),
                    'a granted request is released, then the request is cancelled')
     # ---- Q ------------------------------------------------------------------
     for attr in ('put_queue', 'get_queue'):
@@ -236,20 +276,20 @@ def run(check, an: Analysis):
                            'queue yields a plain list' % ast.unparse(stmt)[:60])
     for name, queue, do in (('_trigger_put', 'put_queue', '_do_put'),
                             ('_trigger_get', 'get_queue', '_do_get')):
-        fn = an.method(BASE, name)
-        body = [ast.unparse(s) for s in fn.node.body if not (
-            isinstance(s, ast.Expr) and isinstance(s.value, ast.Constant))]
-        served = [n for n in ast.walk(fn.node) if isinstance(n, ast.Assign)
-                  and isinstance(n.value, ast.Call)]
-        ok = len(served) == 1 and ast.unparse(served[0].value) == \
-            'list(takewhile(self.%s, self.%s))' % (do, queue)
-        name_t = ast.unparse(served[0].targets[0]) if served else '?'
-        dels = [n for n in ast.walk(fn.node) if isinstance(n, ast.Delete)]
-        ok_del = len(dels) == 1 and ast.unparse(dels[0].targets[0]) == \
-            'self.%s[:len(%s)]' % (queue, name_t)
-        check.instance('Q', 'BaseResource.%s' % name, ok and ok_del, where_fn(fn),
+        base_fn = an.method(BASE, name)
+        # BaseResource itself is abstract (_do_* raise): judged for the concrete resources
+        recvs = [q for q in an.p.subclasses(BASE) if an.p.find_method(q, name) is base_fn
+                 and an.p.find_method(q, do) is not an.p.find_method(BASE, do)]
+        verdict, forms, detail = bool(recvs), set(), ''
+        for recv in recvs:
+            good, form, why = _serves_prefix(an, Callee(base_fn, recv), queue, do)
+            forms.add(form)
+            if not good:
+                verdict, detail = False, detail or '%s [%s]' % (why, recv.rsplit('.', 1)[-1])
+        check.instance('Q', 'BaseResource.%s' % name, verdict, where_fn(base_fn),
                        'serves the head of the queue while possible and removes exactly '
-                       'the served prefix')
+                       'the served prefix, in place (%s%s; %d resource classes)' % (
+                           '/'.join(sorted(forms)), detail, len(recvs)), analysed=len(recvs))
     pr = an.cls(PRIORESOURCE)
     check.instance('Q', 'PriorityResource.PutQueue', ast.unparse(pr.attrs.get(
         'PutQueue', ast.Constant(None))) == 'SortedQueue', pr.module.relpath,
@@ -259,10 +299,16 @@ def run(check, an: Analysis):
     ok = len(keys) == 1 and ast.unparse(keys[0].body).endswith('.key')
     check.instance('Q', 'SortedQueue:key', ok, where_fn(sq_init),
                    'the queue is ordered by the request\'s key')
-    sq_append = an.method(SORTEDQUEUE, 'append')
-    check.instance('Q', 'SortedQueue.append', [ast.unparse(s) for s in sq_append.node.body]
-                   == ['self.add(%s)' % sq_append.node.args.args[1].arg],
-                   where_fn(sq_append), 'append inserts at the sorted position')
+    sq_append = an.callee(SORTEDQUEUE, 'append')
+    sparam = sq_append.fn.node.args.args[1].arg
+    spaths = [p for p in an.paths(sq_append) if p.normal]
+    ok = bool(spaths) and all(
+        [(rules.value_text(p, i, e.node.func), [rules.value_text(p, i, a)
+                                                for a in e.node.args])
+         for i, e in enumerate(p.events) if e.kind == 'call' and e.depth == 0
+         and isinstance(e.node, ast.Call)] == [('self.add', [sparam])] for p in spaths)
+    check.instance('Q', 'SortedQueue.append', ok, where_fn(sq_append.fn),
+                   'append inserts at the sorted position')
     preq = an.method(PRIOREQUEST, '__init__')
     keydef = [n for n in ast.walk(preq.node) if isinstance(n, ast.Assign)
               and ast.unparse(n.targets[0]) == 'self.key']
@@ -284,43 +330,63 @@ def run(check, an: Analysis):
             check.instance('Q', '%s:users:rebound' % short(fn.qn), False,
                            '%s:%d' % (fn.module.relpath, stmt.lineno),
                            'the user list is re-bound outside __init__')
+    from .c16 import asserted
     preempt = an.callee(PREEMPTIVE, '_do_put')
     ev = preempt.fn.node.args.args[1].arg
     n_evict = 0
+    want_full = asserted(ast.parse('len(self.users) >= self.capacity', mode='eval').body,
+                         True)
+    want_better = asserted(ast.parse('%s.key < self.users[-1].key' % ev, mode='eval').body,
+                           True)
+    regular_ok, n_normal = True, 0
     for path in an.paths(preempt):
+        evicted = []
         for index, event in enumerate(path.events):
             if event.kind == 'call' and isinstance(event.node, ast.Call) and \
-                    ast.unparse(event.node.func) == 'self.users.remove':
+                    event.node.args and rules.value_text(
+                        path, index, event.node.func) == 'self.users.remove':
                 n_evict += 1
-                victim = ast.unparse(event.node.args[0])
-                src = rules.local_values(preempt.fn, victim)
-                last = len(src) == 1 and src[0] is not None and \
-                    ast.unparse(src[0]) == 'self.users[-1]'
-                tests = [e for e in path.events[:index] if e.kind == 'test']
-                full = any(e['value'] is True and same_inequality(
-                    e.node, 'len(self.users) >= self.capacity') for e in tests)
-                wants = any(tested(e, ('truth', '%s.preempt' % ev), True) for e in tests)
-                better = any(e['value'] is True and isinstance(e.node, ast.Compare) and
-                             isinstance(e.node.ops[0], ast.Lt) and
-                             ast.unparse(e.node.left) == '%s.key' % ev and
-                             ast.unparse(e.node.comparators[0]) == '%s.key' % victim
-                             for e in tests)
-                told = any(e.kind == 'call' and isinstance(e.node, ast.Call) and
-                           ast.unparse(e.node.func) == '%s.proc.interrupt' % victim
-                           for e in path.events[index:])
+                evicted.append(index)
+                victim = rules.value_text(path, index, event.node.args[0])
+                last = victim == 'self.users[-1]'
+                tests = [(i, e) for i, e in enumerate(path.events[:index])
+                         if e.kind == 'test']
+                facts = [asserted(rules.value_expr(path, i, e.node), e['value'])
+                         for i, e in tests]
+                full = want_full in facts
+                better = want_better in facts
+                atoms = rules.path_atoms(path, 0, index)
+                wants = atoms.get(('truth', '%s.preempt' % ev)) is True
+                told = [(i, e) for i, e in enumerate(path.events) if i > index
+                        and e.kind in ('call', 'enter') and isinstance(e.node, ast.Call)
+                        and (is_call_to(e, 'interrupt') or rules.value_text(
+                            path, i, e.node.func).endswith('.proc.interrupt'))]
+                whom = bool(told) and rules.value_text(
+                    path, told[0][0], told[0][1].node.func) == \
+                    'self.users[-1].proc.interrupt'
                 check.instance('Q', 'PreemptiveResource._do_put:evicts', last and full and
-                               wants and better and told, event.where,
+                               wants and better and whom, event.where,
                                'victim is the last (worst) user (%s); only when full (%s), '
                                'for a pre-empting request (%s) with a strictly smaller key '
                                '(%s); its process is interrupted (%s)' % (
-                                   last, full, wants, better, told),
+                                   last, full, wants, better, whom),
                                path=rules.path_lines(path, index))
+        if path.kind == 'return':
+            n_normal += 1
+            regular = [i for i, e in enumerate(path.events)
+                       if e.kind in ('call', 'enter') and e.node is path.outcome[1]
+                       and is_call_to(e, '_do_put')
+                       and [rules.value_text(path, i, a) for a in e.node.args] == [ev]]
+            if not regular or any(i > regular[0] for i in evicted):
+                regular_ok = False
+        elif path.normal:
+            regular_ok = False
     check.instance('Q', 'PreemptiveResource._do_put:can-evict', n_evict > 0,
                    where_fn(preempt.fn), 'pre-emption exists')
-    tail = preempt.fn.node.body[-1]
-    check.instance('Q', 'PreemptiveResource._do_put:then-regular', isinstance(
-        tail, ast.Return) and '_do_put(%s)' % ev in ast.unparse(tail), where_fn(preempt.fn),
-        'after a possible eviction the regular capacity rule decides')
+    check.instance('Q', 'PreemptiveResource._do_put:then-regular',
+                   regular_ok and n_normal > 0, where_fn(preempt.fn),
+                   'after a possible eviction the regular capacity rule decides '
+                   '(%d returning paths)' % n_normal, analysed=n_normal)
     pre_cls = an.method('usim.py.resources.resource.Preempted', '__init__')
     args = [a.arg for a in pre_cls.node.args.args[1:]]
     check.instance('Q', 'Preempted', args == ['by', 'usage_since', 'resource'],
@@ -372,22 +438,13 @@ def run(check, an: Analysis):
                  and isinstance(n.value, ast.Name) and n.value.id == ev
                  and isinstance(n.ctx, ast.Load)} - {'succeed', 'request'}
         decides = {a for a in reads if a in ('filter',)}
-        prefix_stop = any(isinstance(n, ast.Call) and ast.unparse(n.func) == 'takewhile'
-                          for n in ast.walk(trigger.node))
+        prefix_stop = _serves_prefix(an, Callee(trigger, cls_qn), 'get_queue', '_do_get')[0]
         if decides and not prefix_stop:
-            # the override scans the whole queue in order and removes exactly the served
-            comps = [n for n in ast.walk(trigger.node) if isinstance(n, ast.ListComp)]
-            ok = len(comps) == 1 and ast.unparse(comps[0].generators[0].iter) == \
-                'self.get_queue' and len(comps[0].generators[0].ifs) == 1 and \
-                ast.unparse(comps[0].generators[0].ifs[0]) == 'self._do_get(%s)' % \
-                ast.unparse(comps[0].generators[0].target) and \
-                ast.unparse(comps[0].elt) == ast.unparse(comps[0].generators[0].target)
-            removes = [n for n in ast.walk(trigger.node) if isinstance(n, ast.Call)
-                       and ast.unparse(n.func) == 'self.get_queue.remove']
+            ok, detail = _serves_by_scan(an, Callee(trigger, cls_qn), 'get_queue', '_do_get')
             check.instance('Q', '%s._trigger_get:full-scan' % cls_qn.rsplit('.', 1)[-1],
-                           ok and len(removes) == 1, where_fn(trigger),
+                           ok, where_fn(trigger),
                            'every queued request is tried in queue order; exactly the '
-                           'served ones are removed, in place')
+                           'served ones are removed, in place (%s)' % detail)
         if decides:
             check.instance('F', '%s._do_get:request-dependent-under-takewhile'
                            % cls_qn.rsplit('.', 1)[-1], not prefix_stop, where_fn(do_get),
@@ -395,6 +452,184 @@ def run(check, an: Analysis):
                            'but the queue is served with takewhile: the first unservable '
                            'request blocks all later ones' % sorted(decides))
     check.stats.update(an.stats())
+
+
+def _queue_iterations(path, queue):
+    """[(iter-next index, loop node)] of loops over ``self.<queue>`` on the path"""
+    return [(i, e.node) for i, e in enumerate(path.events)
+            if e.kind == 'iter-next' and e.depth == 0
+            and rules.value_text(path, i, e.node.iter) == 'self.%s' % queue]
+
+
+def _serve_outcome(path, start, stop, do, loop_node):
+    """truth of the one ``do(<loop variable>)`` test inside an iteration, else None"""
+    calls = [(i, e) for i, e in enumerate(path.events[start:stop], start)
+             if e.kind in ('call', 'enter') and isinstance(e.node, ast.Call)
+             and is_call_to(e, do)
+             and [rules.value_text(path, i, a) for a in e.node.args]
+             == [ast.unparse(loop_node.target)]]
+    if len(calls) != 1:
+        return None
+    call = calls[0][1].node
+    for event in path.events[calls[0][0]:stop]:
+        if event.kind == 'test' and any(sub is call for sub in ast.walk(event.node)):
+            return key_truth(event) if event.data.get('key') else bool(event['value'])
+    return None
+
+
+def _serves_prefix(an: Analysis, callee: Callee, queue: str, do: str):
+    """
+    (verdict, form, detail): the queue head is served while ``do`` grants and exactly the
+    served prefix is deleted in place.  Two idioms are understood:
+    ``served = list(takewhile(do, queue)); del queue[:len(served)]`` and a counting loop
+    that stops at the first refusal followed by ``del queue[:count]``.
+    """
+    paths = [p for p in an.paths(callee) if p.normal]
+    if not paths:
+        return False, 'no normal path', ''
+    forms = set()
+    for path in paths:
+        dels = [(i, e) for i, e in enumerate(path.events) if e.kind == 'del' and e.depth == 0]
+        if len(dels) != 1:
+            return False, 'unknown', ': %d deletions on a path' % len(dels)
+        index, event = dels[0]
+        target = event.node
+        if not (isinstance(target, ast.Subscript) and isinstance(target.slice, ast.Slice)
+                and target.slice.lower is None and target.slice.step is None
+                and target.slice.upper is not None
+                and rules.value_text(path, index, target.value) == 'self.%s' % queue):
+            return False, 'unknown', ': deletes %s' % ast.unparse(target)
+        upper = target.slice.upper
+        counted = isinstance(upper, ast.Name) and any(
+            isinstance(n, ast.AugAssign) and isinstance(n.target, ast.Name)
+            and n.target.id == upper.id for n in ast.walk(callee.fn.node))
+        if not counted:
+            upper = rules.value_expr(path, index, upper)
+        loops = _queue_iterations(path, queue)
+        if isinstance(upper, ast.Call) and ast.unparse(upper.func) == 'len' and \
+                len(upper.args) == 1:
+            inner = upper.args[0]
+            if isinstance(inner, ast.Call) and ast.unparse(inner.func) in ('list', 'tuple') \
+                    and len(inner.args) == 1:
+                inner = inner.args[0]
+            good = isinstance(inner, ast.Call) and \
+                ast.unparse(inner.func).split('.')[-1] == 'takewhile' and \
+                [ast.unparse(a) for a in inner.args] == ['self.%s' % do, 'self.%s' % queue]
+            if not good or loops:
+                return False, 'takewhile', ': prefix length is %s' % ast.unparse(upper)
+            forms.add('takewhile')
+            continue
+        if not isinstance(upper, ast.Name):
+            return False, 'unknown', ': prefix length is %s' % ast.unparse(upper)
+        # counting loop
+        counter = upper.id
+        stores = [(i, e) for i, e in enumerate(path.events[:index])
+                  if e.kind == 'store' and e.depth == 0 and e['path'] == counter]
+        if not stores or stores[0][1]['aug'] is not None or not (
+                isinstance(stores[0][1]['value'], ast.Constant)
+                and stores[0][1]['value'].value == 0):
+            return False, 'counting loop', ': the counter does not start at 0'
+        bounds = [i for i, _n in loops] + [index]
+        if loops and stores[0][0] > loops[0][0]:
+            return False, 'counting loop', ': the counter is reset inside the loop'
+        refused = False
+        for k, (start, node) in enumerate(loops):
+            stop = bounds[k + 1]
+            if refused:
+                return False, 'counting loop', ': serving goes on after a refusal'
+            outcome = _serve_outcome(path, start, stop, do, node)
+            bumps = [e for i, e in stores if start < i < stop]
+            unit = all(isinstance(e['aug'], ast.Add) and isinstance(e['value'], ast.Constant)
+                       and e['value'].value == 1 for e in bumps)
+            if outcome is True:
+                if len(bumps) != 1 or not unit:
+                    return False, 'counting loop', ': a served request is not counted once'
+            elif outcome is False:
+                if bumps:
+                    return False, 'counting loop', ': a refused request is counted'
+                refused = True
+            else:
+                return False, 'counting loop', ': no `%s(request)` decision per request' % do
+        if len(stores) - 1 != sum(1 for i, _e in stores[1:] if any(
+                start < i for start, _n in loops)):
+            return False, 'counting loop', ': the counter changes outside the loop'
+        forms.add('counting loop')
+    return len(forms) == 1, '/'.join(sorted(forms)), ''
+
+
+def _serves_by_scan(an: Analysis, callee: Callee, queue: str, do: str):
+    """
+    every queued request is offered ``do`` once, in queue order, without mutating the queue
+    meanwhile; the granted ones are collected and then removed one by one
+    """
+    paths = [p for p in an.paths(callee) if p.normal]
+    if not paths:
+        return False, 'no normal path'
+    n_try = n_remove = 0
+    for path in paths:
+        loops = _queue_iterations(path, queue)
+        events = path.events
+        collected = None
+        removals = [i for i, e in enumerate(events) if e.kind == 'call' and e.depth == 0
+                    and isinstance(e.node, ast.Call)
+                    and rules.value_text(path, i, e.node.func, keep_clock=True)
+                    == 'self.%s.remove' % queue]
+        last_scan = -1
+        for k, (start, node) in enumerate(loops):
+            ends = [i for i in range(start + 1, len(events))
+                    if events[i].kind in ('iter-next', 'iter-end') and events[i].depth == 0
+                    and events[i].node is node]
+            stop = ends[0] if ends else len(events)
+            last_scan = max(last_scan, stop)
+            outcome = _serve_outcome(path, start, stop, do, node)
+            if outcome is None:
+                return False, 'a queued request is not offered `%s` exactly once' % do
+            n_try += 1
+            kept = [e for e in events[start:stop] if e.depth == 0 and (
+                (e.kind == 'element' and ast.unparse(e.node) == ast.unparse(node.target)) or
+                (e.kind == 'call' and isinstance(e.node, ast.Call)
+                 and isinstance(e.node.func, ast.Attribute) and e.node.func.attr == 'append'
+                 and [ast.unparse(a) for a in e.node.args] == [ast.unparse(node.target)]))]
+            if (len(kept) == 1) != outcome:
+                return False, 'the granted requests are not exactly the collected ones'
+            for e in kept:
+                name = None
+                if e.kind == 'call':
+                    name = ast.unparse(e.node.func.value)
+                else:
+                    following = [s for s in events[stop:] if s.kind == 'store'
+                                 and s.get('value') is e.data.get('comprehension')]
+                    name = following[0]['path'] if following else None
+                if collected not in (None, name):
+                    return False, 'granted requests are collected in different lists'
+                collected = name
+            if any(start < i < stop for i in removals):
+                return False, 'the queue is changed while it is scanned'
+        # removal loops: over the collected list, one removal of the loop variable each
+        for index, event in enumerate(events):
+            if event.kind == 'iter-next' and event.depth == 0 and index > last_scan and \
+                    isinstance(event.node.iter, ast.Name):
+                if collected is not None and event.node.iter.id != collected:
+                    return False, 'removes requests of another list than the granted ones'
+                ends = [i for i in range(index + 1, len(events))
+                        if events[i].kind in ('iter-next', 'iter-end')
+                        and events[i].node is event.node]
+                stop = ends[0] if ends else len(events)
+                mine = [i for i in removals if index < i < stop]
+                if len(mine) != 1 or [ast.unparse(a) for a in events[mine[0]].node.args] != \
+                        [ast.unparse(event.node.target)]:
+                    return False, 'a granted request is not removed exactly once'
+                n_remove += 1
+        if any(i < last_scan for i in removals):
+            return False, 'the queue is changed while it is scanned'
+        inside = [i for i in removals if not any(
+            events[j].kind == 'iter-next' and events[j].depth == 0 and j < i
+            and j > last_scan for j in range(len(events)))]
+        if inside:
+            return False, 'a removal outside the removal loop'
+    if n_try == 0 or n_remove == 0:
+        return False, 'no scan (%d offers, %d removals on paths)' % (n_try, n_remove)
+    return True, '%d offers, %d removals on paths' % (n_try, n_remove)
 
 
 def _mutations(path, mutation, ev):
